@@ -20,6 +20,7 @@ from cascade.low.into import graph2job
 from cascade.low.views import param_source
 from earthkit.workflows.fluent import Action, Node, Payload
 from earthkit.workflows.graph import Graph
+from earthkit.workflows.graph import Node as BaseNode
 
 CALLS: list[list[str]] = []      # [[label of the callable, rendered call]]; the callables reach it by importing this module
 
@@ -109,13 +110,20 @@ def observe(case: dict) -> dict:
     coords = []
     for j, nd in enumerate(case["nodes"], start=1):
         label = f"n{j}"
-        inputs = [nodes[p - 1] if case["nodes"][p - 1]["nout"] == 1 else nodes[p - 1].get_output(nodes[p - 1].outputs[o])
-                  for p, o in nd["inputs"]]
-        payload = Payload(recording_callable(label, nd["nout"], list(nd["yvals"])), [item(a) for a in nd["args"]],
-                          {k: item(v) for k, v in nd["kwargs"]})
-        node = Node(payload, inputs, num_outputs=nd["nout"])
+        inputs = []
+        for p, o in nd["inputs"]:
+            pn, pc = nodes[p - 1], case["nodes"][p - 1]
+            # o = which yielded value: fluent nodes declare their outputs in yield order, hand-built ones bind key-sorted (onames)
+            inputs.append(pn if pc["nout"] == 1 else pn.get_output(pc["onames"][o] if pc["onames"] else pn.outputs[o]))
+        func = recording_callable(label, nd["nout"], list(nd["yvals"]))
+        args, kwargs = [item(a) for a in nd["args"]], {k: item(v) for k, v in nd["kwargs"]}
+        if nd["onames"]:        # a hand-built node: graph.Node with the payload tuple, outputs as the author wrote them
+            node = BaseNode(f"h{j}", [nd["onames"][i - 1] for i in nd["odecl"]], (func, args, kwargs),
+                            **{Node.input_name(k): i for k, i in enumerate(inputs)})
+        else:
+            node = Node(Payload(func, args, kwargs), inputs, num_outputs=nd["nout"])
         nodes.append(node)
-        if nd["nout"] > 1:      # what the fluent API maps each coordinate of the yielded dimension to
+        if nd["nout"] > 1 and not nd["onames"]:      # what the fluent API maps each coordinate of the yielded dimension to
             act = Action(xr.DataArray(node), yields=("y", list(nd["coords"])))
             coords.append([[str(c), act.nodes.sel(y=c).item().name] for c in act.nodes.coords["y"].values])
         else:
